@@ -21,7 +21,7 @@ from .common import Out, with_, drop_each, REAL_ALL, STUB_ALL
 ID = "C04"
 TIERS = {"quick": {"n": 6000, "chunk": 100}, "thorough": {"n": 200000, "chunk": 250, "wall_cap": 3300}}
 RULE = (
-    "stratum A (3 of 4 scenarios): 1-4 members drawn from 13 template families (fail on line K, fail_and_stop on a planted cell, fail.onmatch, error handled with/without 'fail', validation-mode fail/no-fail, and decoys: "
+    "stratum A (3 of 4 scenarios): 1-4 members drawn from 17 template families (fail on line K, fail_and_stop on a planted cell, fail.onmatch, error handled with/without 'fail', validation-mode fail/no-fail, and decoys: "
     "no() -> fail(), after stop(), after skip(), false left of '->', fail.onmatch on a rejected line) over a generated file, run standalone and by one of 7 run forms under a policy with or without 'fail'; "
     "stratum B: arbitrary generated programs under the secondary monitor. Non-trivial = some member's verdict event fired or a decoy was reached; distinct = (families, run form, policy has fail, event position classes)."
 )
@@ -34,7 +34,7 @@ ASSUMPTIONS = [
 REAL = REAL_ALL
 STUB = STUB_ALL + ["pass-through wrappers recording that Fail._decide_match / Stopper._stop_me / ErrorHandler._handle_if executed (secondary monitor)"]
 
-FAMILIES = ["plain", "no", "fas", "onmatch", "after_stop", "after_skip", "when_false", "error", "error_vm_fail", "error_vm_nofail", "onmatch_rejected", "fail_then_error", "error_skip_same_line"]
+FAMILIES = ["plain", "no", "fas", "onmatch", "after_stop", "after_skip", "when_false", "error", "error_vm_fail", "error_vm_nofail", "onmatch_rejected", "fail_then_error", "error_skip_same_line", "fas_onmatch", "plain_nocontrib", "fas_nocontrib", "abort_outside"]
 PRE = 'push("bl", line_number()) push("b", valid()) push("bf", failed())'
 POST = 'push("al", line_number()) push("a", valid()) push("af", failed()) simprobe("p")'
 
@@ -58,6 +58,16 @@ def family_body(fam, K):
         return 'simfault("s")'
     if fam == "onmatch_rejected":
         return '#c == "NOPE" fail.onmatch()'
+    if fam == "fas_onmatch":
+        return '#c == "FAILHERE" fail_and_stop.onmatch()'
+    if fam == "plain_nocontrib":
+        return f"line_number() == {K} -> fail.nocontrib()"
+    if fam == "fas_nocontrib":
+        return '#c == "FAILHERE" -> fail_and_stop.nocontrib()'
+    if fam == "abort_outside":
+        # a failure raised outside every match component: collect() names a header that does not exist, so narrowing
+        # the first matched line raises InputException out of the run loop (handled by the policy, not by an expression)
+        return 'collect("nosuchheader")'
     if fam == "error_skip_same_line":
         # an error and, later on the same line, a skip(): the error must still be handled
         return f'simfault("s") line_number() == {K} -> skip()'
@@ -97,6 +107,13 @@ def generate(rng, i, tier):
     if dup_ids:
         # two or more members written with the SAME identity (legal: nothing forbids it); families without injected errors
         members = [{"fam": rng.choice(["plain", "no", "fas", "when_false", "after_stop", "after_skip", "plain"]), "K": rng.randint(0, nrec), "K2": 0} for _ in range(k)]
+    method = rng.choice(["standalone"] + ops.METHODS * 2)
+    if method not in ops.SERIAL:
+        # a failure outside every component is only handled member by member in a serial CsvPaths run (a standalone CsvPath
+        # hands it to the caller; a breadth-first run drops the rest of that line for the other members)
+        for m in members:
+            if m["fam"] == "abort_outside":
+                m["fam"] = "no"
     return {
         "stratum": "A",
         "dup_ids": dup_ids,
@@ -105,7 +122,7 @@ def generate(rng, i, tier):
         "blanks": blanks,
         "planted": planted,
         "members": members,
-        "method": rng.choice(["standalone"] + ops.METHODS * 2),
+        "method": method,
         "policy": rng.choice([["collect"], ["collect", "fail"], ["fail"], ["collect", "print"], ["collect", "fail", "print", "quiet"], ["collect", "stop"], ["collect", "fail", "stop"]]),
         # an earlier run of ANOTHER group on the same instance in which a member executed a cross-path signal:
         # nothing of it may leak into the verdicts of the run under test
@@ -131,7 +148,9 @@ def reductions(sc):
             yield with_(sc, planted=[x for x in sc["planted"] if x != l])
     if sc.get("prelude"):
         yield with_(sc, prelude=None)
-    if sc["method"] not in ("standalone", "collect_paths"):
+    if sc["method"] not in ("standalone", "collect_paths") and not any(m.get("fam") == "abort_outside" for m in sc["members"]):
+        yield with_(sc, method="collect_paths")
+    if sc["method"] in ops.SERIAL and sc["method"] != "collect_paths":
         yield with_(sc, method="collect_paths")
 
 
@@ -153,9 +172,16 @@ def first_event(sc, m, lines):
     pol_stop = "stop" in sc["policy"]
     if fam == "plain":
         return (K if K in lines else None), True, None
-    if fam in ("fas", "onmatch"):
+    if fam in ("fas", "onmatch", "fas_onmatch", "fas_nocontrib"):
         p = [l for l in sc["planted"] if l in lines]
-        return (p[0] if p else None), True, (p[0] if p and fam == "fas" else None)
+        return (p[0] if p else None), True, (p[0] if p and fam != "onmatch" else None)
+    if fam == "plain_nocontrib":
+        return (K if K in lines else None), True, None
+    if fam == "abort_outside":
+        if sc["method"] not in ops.SERIAL or not lines:
+            return None, True, None
+        # the first scanned line matches, is narrowed, raises; the error is handled when the run loop unwinds
+        return (lines[0] if pol_fail else None), False, lines[0]
     if fam == "after_stop":
         return None, True, (K if K in lines else None)
     if fam in ("error", "error_vm_fail", "error_vm_nofail"):
@@ -199,7 +225,7 @@ def execute(sc):
             return
         j = int(identity[1:])
         F, same_line, _ = exp[j]
-        if F is not None and line == F and "onmatch" in members[j]["fam"]:
+        if F is not None and line == F and ("onmatch" in members[j]["fam"] or members[j]["fam"] == "abort_outside"):
             return  # onmatch look-ahead: order of evaluation on the event line is not fixed
         want = not (F is not None and (line > F or (line == F and same_line)))
         online["checks"] += 1
@@ -309,7 +335,7 @@ def execute(sc):
                         break
                 if len(arr) != len(lns):
                     continue
-                uses_onmatch = "onmatch" in m["fam"]
+                uses_onmatch = "onmatch" in m["fam"] or m["fam"] == "abort_outside"
                 for l, x in zip(lns, vals):
                     before_event = arr_name in ("b", "bf")
                     if F is None:
